@@ -27,6 +27,9 @@ def run(rep, tier):
     rep.rule("R17.4", "every public operator() of reader and writer converts H5::Exception into a thrown std::runtime_error (missing names are errors)")
     rep.rule("R17.6", "list of 3-vectors: element number p is written under a member name that is a function of p, and the reader fetches element p from the "
                       "same function of p (not from the group's own enumeration order); the reader sizes the list by the number of members")
+    rep.rule("R17.7", "lists of structured table rows: for every row class (SetupCptTable / WriteData / ReadData over a plain `data` record) each field of the record has exactly "
+                      "one column at its own offset with the field's value type and a distinct name; WriteData fills every field on every path; ReadData consumes every field; "
+                      "and a member slot (member, component or carrier kind) that the writer stores in field f is restored from field f, not from another column")
     rep.rule("R17.5", "overwrite: when the name exists already the old dataset/group is unlinked and created anew; it is never reopened and written with the new dataspace")
     host = os.path.join(front.VERIF, "hosts", "xtp_checkpoint.cc")
     units = [host, front.repo("xtp/src/libxtp/checkpoint.cc")]
@@ -212,6 +215,7 @@ def run(rep, tier):
                               "CheckpointWriter::WriteData (list of 3-vectors)%s: an existing group is reopened (%s); a shorter list keeps stale trailing members" % (where, calls), g.loc(h), sample=True)
     rep.floor("R17.5", n_w, 3, "overwrite handlers")
     check_list_names(rep, F, W, R)
+    check_row_tables(rep, tier)
     # scalars are attributes of fixed shape: reopen is fine, but must be written after (re)open
     rep.assumptions.append("scalar attributes have a fixed shape; reopening an existing attribute and writing it replaces the value")
 
@@ -380,3 +384,148 @@ def matrix_io(f, side):
     if rs:
         out["resize"] = ",".join(canon(a_) for a_ in rs[0]["args"])
     return out
+
+
+ROW_UNITS = ("atom.cc", "polarsite.cc", "qmatom.cc", "qmpair.cc", "staticsite.cc", "aoshell.cc", "ecpaobasis.cc")
+
+
+def _slot_of_value(v):
+    """the member slot a writer value reads: (member, component/carrier) for pos_.x, at(Q_, 3), getValue(M, X), c_str(M), M"""
+    import sympy as sp
+    s_ = str(v)
+    m = re.match(r"^(\w+)\.([xyz])$", s_)
+    if m:
+        return (m.group(1), "xyz".index(m.group(2)))
+    m = re.match(r"^at\((\w+), (\d+)\)$", s_)
+    if m:
+        return (m.group(1), int(m.group(2)))
+    m = re.match(r"^getValue\((\w+), ([\w:]+)\)$", s_)
+    if m:
+        return (m.group(1), m.group(2).split("::")[-1])
+    m = re.match(r"^c_str\((\w+)\)$", s_)
+    if m:
+        return (m.group(1), None)
+    if re.match(r"^\w+_$", s_):
+        return (s_, None)
+    return None
+
+
+def _slot_of_target(t):
+    t = t.replace(" ", "")
+    m = re.match(r"^(\w+)\[(\d+)\]$", t)
+    if m:
+        return (m.group(1), int(m.group(2)))
+    m = re.match(r"^(\w+)\.([xyz])\(\)$", t)
+    if m:
+        return (m.group(1), "xyz".index(m.group(2)))
+    if re.match(r"^\w+_$", t):
+        return (t, None)
+    return None
+
+
+def check_row_tables(rep, tier):
+    units = [front.repo("xtp/src/libxtp/" + u) for u in ROW_UNITS]
+    FR = Facts(front.export(units, skip_unavailable=True))
+    if front.LAST_SKIPPED:
+        rep.assumptions.append("row classes in units that need uninstalled third-party headers are not analysed: %s" % ", ".join(
+            "%s (%s)" % (os.path.basename(u), h) for u, h in front.LAST_SKIPPED))
+    rep.units = list(rep.units) + [u for u in units if u not in [x for x, _h in front.LAST_SKIPPED]]
+    setups = [f for f in FR.funcs if f.qname.endswith("::SetupCptTable") and f.j.get("body")]
+    rep.floor("R17.7", len(setups), 5, "row classes with SetupCptTable")
+    for su in sorted(setups, key=lambda f: f.qname):
+        cls = su.qname.rsplit("::", 1)[0]
+        short = cls.split("::")[-1]
+        rec = FR.records.get(cls + "::data")
+        wr = [f for f in FR.find(cls + "::WriteData") if f.j.get("body")]
+        rd = [f for f in FR.find(cls + "::ReadData") if f.j.get("body")]
+        if rec is None or len(wr) != 1 or len(rd) != 1:
+            rep.broken("R17.7", "%s: data record, WriteData or ReadData not found (%s, %d, %d)" % (cls, rec is not None, len(wr), len(rd)))
+            continue
+        wr, rd = wr[0], rd[0]
+        for f_ in (su, wr, rd):
+            rep.analysed(f_)
+        fields = {fl["name"]: fl.get("type") for fl in rec.get("fields", [])}
+        # ---- columns
+        cols = [n for n in su.walk() if n.get("k") == "mcall" and (n.get("callee") or "").endswith("addCol")]
+        seen, names, badc = {}, {}, []
+        for c in cols:
+            off = [x for x in walk(c["args"][1]) if x.get("k") == "offsetof"] if len(c["args"]) == 2 else []
+            nm = [x.get("v") for x in walk(c["args"][0]) if x.get("k") == "str"] if c["args"] else []
+            if len(off) != 1 or len(off[0]["path"]) != 1 or nows(off[0]["record"]) != nows(cls + "::data") or len(nm) != 1:
+                badc.append("a column whose offset is not offsetof(%s::data, <field>) (%s)" % (short, show(c)[:80]))
+                continue
+            fld = off[0]["path"][0]
+            seen.setdefault(fld, []).append(c)
+            names.setdefault(nm[0], []).append(fld)
+            ta = re.search(r"addCol<(.*)>$", c.get("callee_targs") or "")
+            ft = (fields.get(fld) or "").replace("const ", "")
+            if ta and ft and nows(ta.group(1)) != nows(ft):
+                badc.append("column '%s' is declared %s but field %s is %s" % (nm[0], ta.group(1), fld, ft))
+            if not ta and ft and "char" not in ft:
+                badc.append("column '%s' is a string column but field %s is %s" % (nm[0], fld, ft))
+        for fld in fields:
+            if len(seen.get(fld, [])) != 1:
+                badc.append("field %s has %d columns" % (fld, len(seen.get(fld, []))))
+        for nm, fl_ in names.items():
+            if len(fl_) > 1:
+                badc.append("column name '%s' is used for fields %s" % (nm, fl_))
+        for fld in seen:
+            if fld not in fields:
+                badc.append("column for %s, which is not a field of the record" % fld)
+        rep.check(not badc, "R17.7", "columns|" + short, "one column per field of %s::data, at the field's offset, with its type and a distinct name" % short,
+                  "%s::SetupCptTable: %s: the field is not stored (or stored under a wrong type/name), so rows do not survive write/read" % (short, "; ".join(badc[:3])), su.loc(), sample=(short == "QMPair"))
+        # ---- writer / reader
+        dw, dr = wr.j["params"][0]["name"], rd.j["params"][0]["name"]
+        fw = Fold(wr, inline=False, record_calls=r"strcpy$").run()
+        fr = Fold(rd, inline=False, record_calls=r"setValue$").run()
+        wmap, wcount = {}, {}
+        for e in fw.events:
+            if e["kind"] == "store" and e["target"].startswith(dw + "."):
+                fld = e["target"][len(dw) + 1:]
+                wcount.setdefault(fld, []).append(e)
+                sl = _slot_of_value(e["value"])
+                if sl:
+                    wmap[fld] = sl
+        badw = []
+        for fld in fields:
+            st = wcount.get(fld, [])
+            if not st:
+                badw.append("field %s is never filled" % fld)
+            elif all(e["guards"] for e in st) and len(st) == 1:
+                badw.append("field %s is filled only when %s" % (fld, fw.cond_str(st[0]["guards"][0][0])[:60]))
+        rep.check(not badw, "R17.7", "writer-complete|" + short, "WriteData fills every field of the record", "%s::WriteData: %s: the row is written with an indeterminate value" % (short, "; ".join(badw[:3])), wr.loc())
+        rmap, used = {}, set()
+        for e in fr.events:
+            txts = []
+            if e["kind"] == "store":
+                txts = [str(e["value"])]
+            elif e["kind"] == "call":
+                txts = [str(a) for a in e["args"]]
+            flds = set()
+            for t_ in txts:
+                flds |= set(re.findall(r"\b%s\.(\w+)" % re.escape(dr), t_))
+            used |= flds
+            if e["kind"] == "store" and len(flds) == 1 and str(e["value"]) == "%s.%s" % (dr, list(flds)[0]):
+                sl = _slot_of_target(e["target"])
+                if sl:
+                    rmap.setdefault(list(flds)[0], set()).add(sl)
+            if e["kind"] == "call" and e["callee"].endswith("setValue") and len(e["args"]) == 2 and str(e["args"][0]).startswith(dr + "."):
+                rmap.setdefault(str(e["args"][0])[len(dr) + 1:], set()).add((str(e["obj"]), str(e["args"][1]).split("::")[-1]))
+        for n in rd.walk():
+            if n.get("k") == "member" and unwrap(n.get("base") or {}).get("name") == dr:
+                used.add(n.get("fname"))
+        unread = [fld for fld in fields if fld not in used]
+        rep.check(not unread, "R17.7", "reader-complete|" + short, "ReadData consumes every field of the record", "%s::ReadData never reads %s: that part of the row is not restored" % (short, unread), rd.loc())
+        inv = {sl: fld for fld, sl in wmap.items()}
+        bads = []
+        for fld, sls in sorted(rmap.items()):
+            for sl in sorted(sls, key=str):
+                if sl in inv and inv[sl] != fld:
+                    bads.append("%s%s is restored from column %s but was stored in column %s" % (sl[0], "" if sl[1] is None else "[%s]" % sl[1], fld, inv[sl]))
+                elif fld in wmap and wmap[fld][0] == sl[0] and wmap[fld] != sl:
+                    bads.append("column %s holds %s[%s] but is restored into %s[%s]" % (fld, wmap[fld][0], wmap[fld][1], sl[0], sl[1]))
+        nslots = sum(1 for fld, sls in rmap.items() for sl in sls if sl in inv)
+        rep.check(not bads, "R17.7", "slots|" + short, "%d member slots restored from the column they were stored in" % nslots,
+                  "%s: %s" % (short, "; ".join(bads[:3])), rd.loc(), sample=(short == "PolarSite"))
+        if nslots < 3:
+            rep.broken("R17.7", "%s: only %d member slots could be matched between WriteData and ReadData" % (short, nslots))
